@@ -32,32 +32,32 @@ claim("C14", E1,
       "DESIGN.md §3 C14")
 NOT_APPLICABLE.pop("C14", None)
 
-claim("C10", E1,
+claim("C10", E1 + " + " + E2,
       "Bounded symbolic check of ddpg.sample_actions, td3.sample_target_actions (the samplers every continuous-control loop uses), "
       "DeterministicTanhPolicy (constructor relation + scale_output), the make_* binders, cem_sample and cem_update for action "
       "dimensions 1-3: bounds, smoothing-noise bound and the 'clip(pi(o) + sigma*scale*n(key))' law are SMT obligations over all "
       "network outputs, bounds low<high, noise levels and keys.",
-      REAL + " Policy network is a harness-owned FreeNet whose outputs are unconstrained reals.",
+      REAL + " Policy network is a harness-owned FreeNet whose outputs are unconstrained reals. E2 part: in the DDPG/TD3/LAP/SAC/TD7/MR.Q/PETS loops the action given to env.step is the sampler's / planner's / action-space sample's return value, unmodified.",
       "jaxpr -> SMT (QF_NRA with tanh/sqrt as axiomatised UFs, PRNG draws as key-determined symbols)",
       "DESIGN.md §3 C10")
 NOT_APPLICABLE.pop("C10", None)
 
-claim("C13", E1,
+claim("C13", E1 + " + " + E2,
       "Bounded symbolic check of the real SoftmaxPolicy, GaussianPolicy and GaussianTanhPolicy heads (unbatched observation, batch "
       "1-3, action dim 1-3, 2-4 discrete actions) over a free network whose outputs are arbitrary reals: probabilities, log-"
       "probabilities, entropies and samples are SMT-compared with the closed forms (softmax / diagonal Gaussian with clipped std, "
       "sample = mean + std*n(key), Gumbel-arg-max), plus greedy arg-max selection for Q-networks and Q-tables.",
-      REAL + " epsilon-greedy and the exploration schedule inside training loops are not yet covered by this check.",
+      REAL + " E2 part: the eager epsilon_greedy_policy (symbolic epsilon and roll) and the action selection of the DQN-family loops (symbolic rolls vs the real linear schedule, warm-up).",
       "jaxpr -> SMT (QF_NRA + axiomatised exp/log/tanh; purified nlsat fallback); shape failures replayed eagerly",
       "DESIGN.md §3 C13")
 NOT_APPLICABLE.pop("C13", None)
 
-claim("C06", E1,
+claim("C06", E1 + " + " + E2,
       "Bounded symbolic check of soft_target_net_update (un-jitted body with symbolic tau in [0,1]; jitted entry with tau in "
       "{0,0.005,0.25,1}) and hard_target_net_update on every leaf of 8 real module types (MLP, LayerNormMLP, clipped double-Q, "
       "tanh policy, SALE, SALE policy, SALE critics, encoder policy): target' = tau*online+(1-tau)*target, online unchanged, "
       "tau=1 hard copy, tau=0 no-op, for all parameter values.",
-      REAL + " Update cadence inside training loops and clone independence are not yet covered by this check.",
+      REAL + " Cadence part (E2): the Nature-DQN/DDQN/PER, DDPG, TD3(+LAP), SAC, TD7 and MR.Q loops run on the recording world (K<=5 steps) and a target-update event must occur exactly at the documented steps, online->own target, with the configured tau; targets are distinct clones (nnx.clone itself is trusted).",
       "jaxpr -> SMT, one equality obligation per parameter leaf (linear/polynomial real arithmetic)",
       "DESIGN.md §3 C06")
 NOT_APPLICABLE.pop("C06", None)
@@ -104,7 +104,7 @@ claim("C15", E2,
       "satisfying the invariant: released in {0, window sum}, release <=> window complete or cut short, counters reset / accumulate, "
       "checkpoint replaced <=> complete window with min return >= best, window-size switch <=> epoch < threshold <= epoch+window; "
       "plus histories of <=5 episodes with the ghost equation released + pending = collected.",
-      E2NOTE + " train_td7's release loop and checkpoint copy are not covered by this check yet.",
+      E2NOTE + " train_td7 (K=3..5 steps) runs with the REAL assessment function and _train_step: released iterations, checkpoint copies and epoch advance are checked per path.",
       "path-forking symbolic execution of the real function (no loops => no unrolling bound) + bounded histories",
       "DESIGN.md §3 C15")
 NOT_APPLICABLE.pop("C15", None)
